@@ -55,7 +55,8 @@ def _run(tier, seed, t0):
     nonlocal_evals = [0]
 
     VARS = {'x': 'nat', 'y': 'nat', 'z': 'nat', 'i': 'int', 'j': 'int', 'r': 'real', 's': 'real', 'p': 'bool',
-            'q': 'bool', 'f': 'nat => nat', 'g': 'nat => nat', 'h': 'real => real', 'S': 'nat set', 'T': 'nat set'}
+            'q': 'bool', 'f': 'nat => nat', 'g': 'nat => nat', 'h': 'real => real', 'S': 'nat set', 'T': 'nat set',
+            'rx': 'real', 'ry': 'real', 'x1': 'nat', 'a1': 'nat'}
     context.set_context('real', vars=VARS)
 
     def P(s):
@@ -347,6 +348,10 @@ def _run(tier, seed, t0):
         "!b::bool. b | ~b", "?b::bool. b & ~b", "(!n::nat. n : S) --> 3 : S", "(?n::nat. n : S & n < 0) --> false",
         "?n::nat. n : S & n < 0", "(!n::nat. n : S --> n < 0) --> S = T", "of_nat (x + y) = of_nat x + (of_nat y :: real)",
         "of_nat x >= (0::real)", "of_nat x = (of_nat y :: real) --> x = y", "x < y --> of_nat x < (of_nat y :: real)",
+        # user variables named like the fresh names the wrapper invents (r<name> for of_nat <name>, <name>1 for binders)
+        "of_nat x = rx", "!n::nat. !rn::real. of_nat n = rn", "!x::nat. !rx::real. of_nat x = rx", "of_nat x = rx --> false",
+        "of_nat y = ry & ry < 0 --> false", "!m::nat. !rm::real. of_nat m <= rm", "(?x1::nat. x1 < x) --> x1 < x",
+        "(!x1::nat. x1 >= a1) --> a1 = 0", "(?a::nat. a > a1) & a1 > 5 --> (?a::nat. a > 7)",
     ]
 
     def z3_case(src, family):
@@ -460,6 +465,19 @@ def _run(tier, seed, t0):
                                          'model (found with the hint %s)' % hint, 'counter_model': hint, 'replayed': False})
         else:
             stats['oracle_unknown'] += 1
+    # sequences: a call that raises (outside the bridge's own exception), then invalid goals over the same variable
+    # names in the same process - state kept from the failed call must not make them provable
+    crashing = ["x = 0 --> (?f::nat=>nat. f 0 = x)", "r = 0 --> (?k::real=>real. k 0 = r)",
+                "x = 0 & y = 0 --> (if p then f else g) = f", "i = 0 --> (?k::int=>int. k 0 = i)"]
+    after = ["x = 1 --> false", "0 < x --> 5 < x", "~(x = 0) --> y = 0", "r = 1 --> false", "i = 2 --> false", "x = y"]
+    for cg in crashing:
+        try:
+            z3wrapper.solve(P(cg))
+        except Exception:
+            pass
+        for k_, ag in enumerate(after):
+            distinct.discard(pr(P(ag)))          # the same goal is offered again after every crashing call
+            z3_case(ag, 'after-crash')
     n = 250 if tier == 'quick' else 4000
     for it in range(n):
         nprem = rng.choice([0, 0, 1, 2])
@@ -489,6 +507,8 @@ def _run(tier, seed, t0):
         return '(abs %s)' % a
 
     sym_directed = [
+        ("(2::nat) - 3 < 0", None), ("~((2::nat) - 3 = 0)", None), ("(2::nat) - 3 = 0", None), ("(5::nat) - 3 = 2", None),
+        ("(4::nat) > 2", None), ("(2::nat) - 3 + 3 = 2", None), ("(2::nat) - 3 + 3 = 3", None),
         ("~(x = y)", None), ("~((x + 1) ^ (2::nat) = x ^ (2::nat) + 2 * x + 1)", None), ("x / x = 1", None),
         ("x * (1 / x) = 1", None), ("~(x + 1 = x)", None), ("x + x = 2 * x", None), ("(x::real) = x", None),
         ("~(1 / x = 0)", ('-1', '1', True)), ("1 / x > 0", ('0', '1', True)), ("x / x = 1", ('-1', '1', True)),
